@@ -47,7 +47,41 @@ pub uninterp spec fn hdr_hash(h: BlockHeader) -> BlockHash;
 pub uninterp spec fn hdr_target(h: BlockHeader) -> Target;
 pub uninterp spec fn pow_ok(h: BlockHeader) -> bool;        // block hash under the header's own target
 pub uninterp spec fn spec_max_target(n: Network) -> Target;
-pub uninterp spec fn retarget_ok(prev: Target, target: Target, n: Network) -> bool;
+// Targets are 256-bit numbers; the consensus retarget rule (from the property: "meets ... the retarget rules"): at a
+// retarget boundary the new target is at most the chain's proof-of-work limit and within the factor-4 transition window of
+// the previous target, both window ends taken after the compact ("bits") round trip that full nodes apply
+pub uninterp spec fn target_val(t: Target) -> nat;
+pub uninterp spec fn spec_min_transition(t: Target) -> Target;                 // rust-bitcoin Target::min_transition_threshold (prev / 4)
+pub uninterp spec fn spec_max_transition(t: Target, p: VxParams) -> Target;    // Target::max_transition_threshold (min(prev * 4, limit))
+pub uninterp spec fn spec_compact(t: Target) -> CompactTarget;                 // Target::to_compact_lossy
+pub uninterp spec fn spec_from_compact(c: CompactTarget) -> Target;            // Target::from_compact
+pub uninterp spec fn spec_params(n: Network) -> VxParams;
+pub open spec fn spec_rt(t: Target) -> Target { spec_from_compact(spec_compact(t)) }
+pub open spec fn retarget_ok(prev: Target, target: Target, n: Network) -> bool {
+    &&& target_val(target) <= target_val(spec_max_target(n))
+    &&& target_val(spec_rt(spec_min_transition(prev))) <= target_val(target)
+    &&& target_val(target) <= target_val(spec_rt(spec_max_transition(prev, spec_params(n))))
+}
+#[verifier::external_body]
+pub struct VxParams { _p: u8 }       // &'static bitcoin::consensus::Params
+impl Network {
+    #[verifier::external_body]
+    pub fn params(&self) -> (r: VxParams) ensures r == spec_params(*self) { unimplemented!() }
+}
+impl Target {
+    #[verifier::external_body]
+    pub fn gt(&self, o: &Target) -> (r: bool) ensures r == (target_val(*self) > target_val(*o)) { unimplemented!() }
+    #[verifier::external_body]
+    pub fn lt(&self, o: &Target) -> (r: bool) ensures r == (target_val(*self) < target_val(*o)) { unimplemented!() }
+    #[verifier::external_body]
+    pub fn min_transition_threshold(&self) -> (r: Target) ensures r == spec_min_transition(*self) { unimplemented!() }
+    #[verifier::external_body]
+    pub fn max_transition_threshold(&self, p: VxParams) -> (r: Target) ensures r == spec_max_transition(*self, p) { unimplemented!() }
+    #[verifier::external_body]
+    pub fn to_compact_lossy(self) -> (r: CompactTarget) ensures r == spec_compact(self) { unimplemented!() }
+    #[verifier::external_body]
+    pub fn from_compact(c: CompactTarget) -> (r: Target) ensures r == spec_from_compact(c) { unimplemented!() }
+}
 
 #[verifier::external_body]
 pub struct PowError { _p: u8 }
